@@ -86,6 +86,6 @@ func init() {
 			c.grammarRule("prec-oracle", yacc.PrecOracle)
 			c.scanRun("newline-symmetry")
 		})
-	extendProp("C03", "newline-symmetry: a valid program is valid with either line ending (seed C03-9: heredoc end test that accepts only LF after the label).",
-		nil, func(c *Ctx) { defer c.cleanup(); c.scanRun("newline-symmetry") })
+	extendProp("C03", "newline-symmetry: a valid program is valid with either line ending (seed C03-9: heredoc end test that accepts only LF after the label). num-classify: every path of the scanner's actions that returns T_LNUMBER has found the error of strconv.ParseInt (bit size 0 or 64) on the literal nil; otherwise the literal is a float (seed C03-8: literals shorter than 20 bytes returned as integers unparsed).",
+		[]report.Floor{{Rule: "num-classify", What: "lnumber-blocks", Min: 5}}, func(c *Ctx) { defer c.cleanup(); c.scanRun("newline-symmetry", "num-classify") })
 }
